@@ -1133,8 +1133,25 @@ namespace vf
                     agg.failures++;
                     handleFailure(culprit, o);
                 }
+                else if (o.st == SKIP && o.msg.rfind("known:", 0) == 0)
+                {
+                    // the batch was killed by a listed known finding (a sanitizer abort): counted as such, not as a flaky failure
+                    agg.skipped++;
+                    agg.knownHits[o.msg.substr(6)]++;
+                }
                 else if (!timedOut)
+                {
                     agg.flaky++;  // died inside a batch but not alone: state leaked between cases -> harness bug, surfaced
+                    // keep what the dying batch wrote, and the case the progress page named
+                    mkdir("/verif/replays", 0755);
+                    std::string dir = std::string("/verif/replays/") + cfg.property;
+                    mkdir(dir.c_str(), 0755);
+                    std::ofstream fc(dir + "/flaky-batch-" + std::to_string(idxs[culprit]) + ".case", std::ios::binary);
+                    fc.write((const char *)b.data(), b.size());
+                    std::ifstream fe(err);
+                    std::ofstream fo(dir + "/flaky-batch-" + std::to_string(idxs[culprit]) + ".txt");
+                    fo << "a batch of cases died at this case, which passes when run alone (exit status " << wst << ")\n" << fe.rdbuf();
+                }
                 else
                     agg.hangsInconclusive++;
                 pos = culprit + 1;
